@@ -26,6 +26,8 @@ func init() {
 }
 
 func runC02(c *core.Ctx) {
+	c.Rule("NULLDEEP", "NULL components of composite join keys do not match")
+	checkJoinNullKeyDepth(c, "NULLDEEP")
 	c.Rule("JOINDUP", "joins reject sides with equally named columns")
 	checkJoinNameCollisions(c, "JOINDUP")
 	c.Rule("UNIQCMP", "unique column names are compared exactly")
